@@ -12,11 +12,12 @@
 //     (deadlock: every goroutine durably blocked in the bubble and no timer; hang/*: blocked on the mutex).
 //
 // At quiescence (no message pending, no section in flight, no retry timer; world.final):
-//   - release/*: no replica still holds a pre-commit for a version that no replica has installed; nor one
-//     (for any version) whose section never committed and whose proposer's later Abort was delivered to
-//     the replica while it held it ("abort-ignored").  A replica that merely missed messages (a lost
-//     Commit, or a lost Abort the proposer stopped re-sending because its version moved) is stale, not
-//     judged;
+//   - release/<cause>: nobody proposes any more, so every proposal is decided (committed or aborted) and
+//     no replica may still hold an accepted pre-commit.  <cause> says why it does (world.whyLocked):
+//     abort-ignored, no-abort-after-accept, abort-never-sent, commit-never-sent, still-accepted, and, only
+//     when the releasing message was reported lost to its sender and never sent again,
+//     lost-commit-not-resent / lost-abort-not-resent.  The locked replica then runs an increment alone,
+//     3 attempts, and the report says whether it could commit;
 //   - no-progress: each node in turn runs one increment alone without faults; at least one commits.
 //
 // Nothing else is demanded: a section may abort for any reason, a node may give up after max_attempts.
@@ -194,27 +195,26 @@ type jobViol struct {
 }
 
 type jobResult struct {
-	Cfg          string           `json:"cfg"`
-	Executions   int64            `json:"executions"`
-	Pruned       int64            `json:"pruned"`
-	Outcomes     int              `json:"outcomes"`
-	MaxDepth     int              `json:"max_depth"`
-	Exhaustive   bool             `json:"exhaustive"`
-	CapHit       string           `json:"cap_hit"`
-	Divergences  int64            `json:"divergences"`
-	DepthCapped  int64            `json:"depth_capped"`
-	WallS        float64          `json:"wall_s"`
-	Steps        int64            `json:"steps"`
-	StepCapped   int64            `json:"step_capped"`
-	Teardown     int64            `json:"teardown_stuck"`
-	StaleDecided int64            `json:"stale_accept_decided"`
-	ProbeRuns    int64            `json:"probe_runs"`
-	ProbeFailed  int64            `json:"probe_failed"`
-	States       int64            `json:"states_expanded"`
-	Violations   []jobViol        `json:"violations"`
-	Samples      []explore.Sample `json:"samples"`
-	ReplayOut    string           `json:"replay_outcome,omitempty"`
-	Hang         *hangReport      `json:"hang,omitempty"`
+	Cfg         string           `json:"cfg"`
+	Executions  int64            `json:"executions"`
+	Pruned      int64            `json:"pruned"`
+	Outcomes    int              `json:"outcomes"`
+	MaxDepth    int              `json:"max_depth"`
+	Exhaustive  bool             `json:"exhaustive"`
+	CapHit      string           `json:"cap_hit"`
+	Divergences int64            `json:"divergences"`
+	DepthCapped int64            `json:"depth_capped"`
+	WallS       float64          `json:"wall_s"`
+	Steps       int64            `json:"steps"`
+	StepCapped  int64            `json:"step_capped"`
+	Teardown    int64            `json:"teardown_stuck"`
+	ProbeRuns   int64            `json:"probe_runs"`
+	ProbeFailed int64            `json:"probe_failed"`
+	States      int64            `json:"states_expanded"`
+	Violations  []jobViol        `json:"violations"`
+	Samples     []explore.Sample `json:"samples"`
+	ReplayOut   string           `json:"replay_outcome,omitempty"`
+	Hang        *hangReport      `json:"hang,omitempty"`
 }
 
 type hangReport struct {
@@ -310,7 +310,7 @@ func runChild(t *testing.T, jobPath string) {
 	}
 	close(stopWatch)
 	res.Steps, res.StepCapped, res.Teardown = cnt.steps.Load(), cnt.depthCapped.Load(), cnt.teardownStuck.Load()
-	res.StaleDecided, res.ProbeRuns, res.ProbeFailed = cnt.staleAcceptDecided.Load(), cnt.probeRuns.Load(), cnt.probeNodeFailed.Load()
+	res.ProbeRuns, res.ProbeFailed = cnt.probeRuns.Load(), cnt.probeNodeFailed.Load()
 	res.States = cnt.statesExpanded.Load()
 	writeJSON(j.Out, res)
 }
@@ -439,7 +439,7 @@ func faultsFor(transport string, budget int) []string {
 	if budget == 0 {
 		return nil
 	}
-	if transport == "local" {
+	if transport == "local" || transport == "sync" {
 		// a function call cannot be lost or duplicated; only its scheduling is free
 		return []string{"sibling-abort"}
 	}
@@ -452,7 +452,7 @@ type shape struct {
 	budget  int
 	atomic  bool
 	only    string // "" = once per transport; else only this transport
-	opt     string // comma list: sym, lazy, drop-commit (the only fault kind is one lost Commit request)
+	opt     string // comma list: sym, lazy, drop-commit (the only fault kind is one lost Commit request), drops (lost requests and sibling-abort only)
 }
 
 // configs lists what each tier explores (every shape once per transport).
@@ -471,10 +471,19 @@ func configs(thorough bool) []Cfg {
 		// that won with a disjoint majority, before it rolls back its own proposal): two writers, three
 		// interchangeable passive replicas, one attempt each, one lost Commit (quick: one transport)
 		{"rmw|rmw|-|-|-", 1, 1, true, "direct", "sym,lazy,drop-commit"},
+		// a proposal withdrawn after its pre-commit, the Abort to one replica lost, a second proposer wins and
+		// its Commit to the same replica is lost too (the smallest shape in which a lost Abort is never re-sent)
+		{"rmw|rmw|-", 1, 3, true, "net", "lazy,drops"},
+		// the repository's in-process transport called synchronously (see assumptions)
+		{"rmw|-|-", 2, 0, false, "sync", ""}, {"rmw|rmw", 2, 1, false, "sync", ""},
+		{"rmw|rmw|-", 2, 1, false, "sync", ""}, {"rmw|rmw|-|-|-", 2, 0, false, "sync", ""},
 	}
 	if thorough {
-		shapes[len(shapes)-1].only = ""
-		shapes[len(shapes)-2].only = ""
+		for i := range shapes {
+			if shapes[i].only == "direct" {
+				shapes[i].only = ""
+			}
+		}
 		shapes = append(shapes,
 			shape{"rmw+rmw|rmw", 2, 1, false, "", ""},
 			shape{"rmw+blind|rmw+rmw", 2, 0, false, "", ""},
@@ -492,12 +501,17 @@ func configs(thorough bool) []Cfg {
 			shape{"rmw|rmw|-|-|-", 1, 1, true, "", "sym"},
 			shape{"rmw|rmw|-|-|-", 2, 0, true, "", "sym,lazy"},
 			shape{"rmw|rmw|rmw|-|-", 1, 1, true, "", "sym,lazy,drop-commit"},
+			shape{"rmw+rmw|rmw+rmw", 3, 1, false, "sync", ""},
+			shape{"rmw|rmw|rmw", 3, 1, false, "sync", ""},
+			shape{"rmw+rmw|blind|rmw|-", 2, 1, false, "sync", ""},
 		)
 	}
 	var out []Cfg
 	for _, sh := range shapes {
-		for _, tr := range []string{"local", "direct", "gob"} {
-			if sh.only != "" && sh.only != tr {
+		for _, tr := range []string{"local", "direct", "gob", "sync"} {
+			// "" = the three message-passing transports; "net" = those that can lose messages
+			if (sh.only == "" && tr == "sync") || (sh.only == "net" && tr != "direct" && tr != "gob") ||
+				(sh.only != "" && sh.only != "net" && sh.only != tr) {
 				continue
 			}
 			c := Cfg{Transport: tr, Scripts: scripts(sh.scripts), MaxAttempts: sh.att, Budget: sh.budget, Faults: faultsFor(tr, sh.budget), MaxSteps: 400, Atomic: sh.atomic}
@@ -507,6 +521,10 @@ func configs(thorough bool) []Cfg {
 					c.Sym = true
 				case "lazy":
 					c.LazyTimers = true
+				case "drops":
+					if sh.budget > 0 {
+						c.Faults = []string{"drop-req", "sibling-abort"}
+					}
 				case "drop-commit":
 					// the in-process transport has no loss: there the only fault kind stays sibling-abort
 					if tr != "local" && sh.budget > 0 {
@@ -555,7 +573,8 @@ func TestCheck(t *testing.T) {
 			"nodes are built by the public NewTwoPC with an address without port: net.Listen fails at once, so no socket and no Accept goroutine exist and the whole node lives inside the synctest bubble; the RPC path is reproduced by passing every request and reply through encoding/gob (one long-lived encoder/decoder per direction, as on one net/rpc connection) and calling the exported TwoPCReceiver.Receive, which is what net/rpc does between RPCReplicaHandle.Send and the receiver; the in-process path uses the repository's LocalReplicaHandle (built through an overlay accessor because its field is private)",
 			"node operations are issued in the order MPCalContext.Run issues them (Read/Write, PreCommit, then Commit, or Abort after any refusal; Abort after a successful PreCommit models a sibling resource that refused); a section is retried at most max_attempts times, after which the node stops (a slow node)",
 			"virtual time: the scheduler advances the clock by 1 microsecond per step so that SenderTime strictly increases per sender as a nanosecond wall clock does; back-off and 1 s retry sleeps elapse only when the scheduler chooses the move 'time'; the relative order of two concurrently pending timers is the one the code's own back-off values give (not enumerated), and state-key pruning ignores absolute time",
-			"release is judged only for a pre-commit whose version has not been installed anywhere (the lock really blocks that version); a replica that missed a Commit and stays locked for an already decided version is counted (stale_accept_decided_version), not judged",
+			"quiescence = every scripted section ended (committed, or its node gave up after max_attempts), every request handed to the transport was processed or reported lost to its sender, no retry timer is pending; from then on nobody proposes anything, so every proposal is decided and no replica may still hold one: the release oracle names why it does (release/<cause>/<transport>); lost-commit-not-resent and lost-abort-not-resent are used only when the releasing message was reported lost to its sender and never sent again",
+			"transport 'sync' wires the nodes with the repository's LocalReplicaHandle directly, as its own tests do: a Send is a function call inside the sender's goroutine and nothing is parked, so the scheduler enumerates only the order of node operations and timers; the order in which the sender goroutines of one broadcast run is the one the Go scheduler produces on one P (children run with GOMAXPROCS=1; deterministic, checked by the 5 confirmation re-runs), not enumerated. This is the only place where a sender goroutine can start after its broadcast already has its majority",
 			"reductions used where the configuration name says so: 'sym' = nodes with the same script (passive replicas; writers that only increment) are interchangeable: the state key is the smallest rendering over their permutations, of several moves that address passive replicas in identical situations with the same message only one is offered, and the probe phase visits interchangeable nodes in an order that depends on their state only (sound: every oracle is invariant under such a permutation; back-off durations, which depend on the node name, are not enumerated anyway); 'atomic-rpc', 'lazy-timers' (timers fire only when nothing else can happen), 'only-drop-commit' (the single fault is one lost Commit request) and max_attempts are restrictions of the schedule space, stated per configuration; within them the enumeration is exhaustive",
 			"lost message = the sender's Send returns an error (what RPCReplicaHandle does on timeout or connection error), either without the receiver ever seeing the request (drop-req), after it processed it (drop-reply), or before it processes it later (timeout); loss, timeout and duplication are not applied to the in-process transport (a function call cannot be lost)",
 		}
@@ -595,6 +614,37 @@ func TestCheck(t *testing.T) {
 				fmt.Println("outcome:", co.res.ReplayOut)
 			}
 			return res
+		}
+
+		// committed witnesses of recorded findings are replayed first (one child each, well under a second):
+		// while the defect is present the finding shows on every run with the same key
+		viol := map[string]hres.Viol{}
+		witnessReplayed := 0
+		if files, _ := filepath.Glob(filepath.Join(os.Getenv("VERIF_DIR"), "replays", "C11", "known-*.json")); len(files) > 0 {
+			sort.Strings(files)
+			for _, f := range files {
+				b, err := os.ReadFile(f)
+				if err != nil {
+					continue
+				}
+				var wf struct {
+					Replay replay `json:"replay"`
+				}
+				if json.Unmarshal(b, &wf) != nil || len(wf.Replay.Cfg.Scripts) == 0 {
+					continue
+				}
+				co := spawn(dir, job{Cfg: wf.Replay.Cfg, Mode: "replay", Choices: wf.Replay.Choices, HangLimitS: 60})
+				if co.res == nil {
+					os.Remove(co.slots)
+					continue // a witness that no longer fits the code is simply stale
+				}
+				witnessReplayed++
+				for _, v := range co.res.Violations {
+					if _, ok := viol[v.Key]; !ok {
+						viol[v.Key] = hres.Viol{Key: v.Key, What: v.What, Replay: replay{Cfg: wf.Replay.Cfg, Choices: wf.Replay.Choices, Trace: v.Trace}}
+					}
+				}
+			}
 		}
 
 		cfgs := configs(env.Thorough())
@@ -650,10 +700,9 @@ func TestCheck(t *testing.T) {
 		close(next)
 		wg.Wait()
 
-		viol := map[string]hres.Viol{}
 		var perCfg []map[string]any
 		var samples []any
-		var evals, pruned, steps, divergences, stepCapped, teardown, stale, probeRuns, probeFailed, states int64
+		var evals, pruned, steps, divergences, stepCapped, teardown, probeRuns, probeFailed, states int64
 		distinct := 0
 		exhaustive := true
 		var caps []string
@@ -738,7 +787,6 @@ func TestCheck(t *testing.T) {
 			divergences += r.Divergences
 			stepCapped += r.StepCapped
 			teardown += r.Teardown
-			stale += r.StaleDecided
 			probeRuns += r.ProbeRuns
 			probeFailed += r.ProbeFailed
 			states += r.States
@@ -787,13 +835,13 @@ func TestCheck(t *testing.T) {
 			"child_crashes":                crashes,
 			"child_hangs":                  hangs,
 			"child_failures_not_confirmed": unconfirmed,
-			"stale_accept_decided_version": stale,
 			"probe_sections_run":           probeRuns,
 			"probe_sections_not_committed": probeFailed,
-			"transports":                   []string{"local (LocalReplicaHandle -> receiveInternal)", "direct (Receive, same pointers)", "gob (encoding/gob round trip + Receive = RPCReplicaHandle path)"},
+			"transports":                   []string{"local (LocalReplicaHandle, every Send parked and scheduled)", "direct (Receive, same pointers)", "gob (encoding/gob round trip + Receive = RPCReplicaHandle path)", "sync (LocalReplicaHandle called synchronously, nothing parked)"},
 			"not_enumerated":               "6-7 replicas; 5 replicas beyond the listed configurations (two or three writers, one or two attempts, passive replicas otherwise); more than 2 sections per node; relative order of two concurrently pending timers; goroutine interleavings inside one resource between two scheduler points (they only read local state and park)",
 			"wall_s_exploration":           time.Since(start).Seconds(),
 			"child_processes":              par,
+			"known_witnesses_replayed":     witnessReplayed,
 			"real_rpc_cross_check":         realRPCCrossCheck(),
 		}
 		return res
